@@ -21,17 +21,18 @@ func NewFilterTree() internaltypes.FilterTreeI {
 // Add a flow with specified filter to the filter tree
 func (f *FilterTree) AddFlow(flow internaltypes.FlowI) error {
 	filter := flow.GetFilter()
-	result := f.tree.Lookup(filter.GetURL())
-	if result.Match && result.NormalizedURL == filter.GetURL() {
+	// only the node declared on exactly this URL may be extended (a policy-style
+	// Lookup would also answer with a wildcard or path parameter node)
+	if existingNode := f.tree.LookupDeclaredURLExact(filter.GetURL()); existingNode != nil {
 		log.Debug().Msgf("Adding %s flow to existing filter tree: %v",
 			flow.GetType().String(), filter.GetURL())
 		switch flow.GetType() {
 		case internaltypes.UserFlow:
-			return result.Value.addUserFlow(flow)
+			return existingNode.addUserFlow(flow)
 		case internaltypes.SystemFlowStart:
-			return result.Value.addSystemFlowStart(flow)
+			return existingNode.addSystemFlowStart(flow)
 		case internaltypes.SystemFlowEnd:
-			return result.Value.addSystemFlowEnd(flow)
+			return existingNode.addSystemFlowEnd(flow)
 		}
 	}
 	var filterNode *FilterNode
